@@ -30,7 +30,7 @@ Ltac cle_goal :=
 
 Lemma own_step_cmds p st c cm e s' :
   own_step p st c cm e = Some s' ->
-  cmds s' = cmds st \/ exists cm', cmds s' = nset (cmds st) c cm' /\ cle cm cm'.
+  cmds s' = cmds st \/ exists cm', cmds s' = nset (cmds st) c cm' /\ cle cm cm' /\ c_last cm' = e_t e /\ c_alt cm' = None.
 Proof.
   unfold own_step.
   destruct (own_time_ok st cm (e_t e)); cbn [negb]; [|discriminate].
@@ -58,6 +58,7 @@ Proof.
   all: repeat match goal with
               | H : match ?x with Some _ => false | None => true end = true |- _ => destruct x eqn:?; [discriminate|]
               end.
+  all: (split; [|split; reflexivity]).
   all: try (cle_goal; fail).
   all: try (destruct ok; cle_goal; fail).
   all: try (destruct (is_pause_stop (c_kind cm)); cle_goal; fail).
@@ -125,7 +126,7 @@ Qed.
 Lemma own_step_keeps p st c cm e s' :
   nget (cmds st) c = Some cm -> own_step p st c cm e = Some s' -> keeps (cmds st) (cmds s').
 Proof.
-  intros Hc H. destruct (own_step_cmds _ _ _ _ _ _ H) as [E|(cm' & E & L)]; rewrite E.
+  intros Hc H. destruct (own_step_cmds _ _ _ _ _ _ H) as [E|(cm' & E & L & _)]; rewrite E.
   - apply keeps_refl.
   - apply keeps_nset with cm; assumption.
 Qed.
